@@ -275,6 +275,16 @@ func handPrograms() []handProg {
 		out = append(out, handProg{Ty: "heap", Init: hi[len(hi)-1], Hand: "heap.getvalues", Then: []tt.Op{o}})
 		out = append(out, handProg{Ty: "heap", Init: hi[len(hi)-1], Hand: "heap.getvalues", Then: []tt.Op{o, fop("heap", "push", 0), fop("heap", "pop")}})
 	}
+	// the listing of a heap whose backing array is exactly full (1, 2, 4, 8 values pushed one by one)
+	for _, n := range []int{1, 2, 4, 8} {
+		init := []tt.Op{fop("heap", "new", 0)}
+		for i := 0; i < n; i++ {
+			init = append(init, fop("heap", "push", 2+i))
+		}
+		for _, o := range hops {
+			out = append(out, handProg{Ty: "heap", Init: init, Hand: "heap.getvalues", Then: []tt.Op{o, fop("heap", "pop"), fop("heap", "push", 0)}})
+		}
+	}
 	_, ci, cops, _ := raceAlphabet("cache")
 	for _, o := range cops {
 		for _, h := range []string{"cache.list", "cache.get"} {
